@@ -111,3 +111,34 @@ void h_morton_monotone(void)
   __CPROVER_assert(zc <= zm, "Morton position is monotone in every coordinate");
   VERIF_REACH();
 }
+
+/* C01, composed: Morton layer over the array backend.  The layer hands the array the interleaved position
+ * (contract of calculate_index), the array returns element [position] of its own buffer (contract of array::at):
+ * two in-range coordinates designate the same element iff they are equal, distinct coordinates designate disjoint
+ * bytes, and every element lies inside the field's own storage -- so a value written at c1 is read back at c1 and a
+ * write at c1 never changes what is read at c2 != c1. */
+void h_morton_array_compose(void)
+{
+  MORTON_SELF_T in_self;
+  in_self.m_sizes = nondet_nd_size();
+  IN_VEC_T in_c1 = nondet_in_vec(), in_c2 = nondet_in_vec();
+  verif_ghost_m = nondet_size_t();
+  ARRAY_NO_T arr;
+  arr.m_size = nondet_u64();
+  verif_b_size = arr.m_size;
+  __CPROVER_assume(arr.m_size <= ARRAY_MAX_ELEMS && MORTON_INV(in_self.m_sizes));
+  __CPROVER_assume(VERIF_ALL(DIMS_IN, MORTON_C_IN_RANGE_K, &in_self, in_c1) && VERIF_ALL(DIMS_IN, MORTON_C_IN_RANGE_K, &in_self, in_c2));
+  arr.m_ptr = malloc(arr.m_size * sizeof(OUT_VEC_T));
+  size_t i1 = morton_calculate_index(in_c1);
+  size_t i2 = morton_calculate_index(in_c2);
+  OUT_VEC_T *p1 = array_at(&arr, i1);     /* precondition i1 < m_size is an obligation here */
+  OUT_VEC_T *p2 = array_at(&arr, i2);
+  __CPROVER_assert(__CPROVER_same_object(p1, arr.m_ptr) && __CPROVER_POINTER_OFFSET(p1) + sizeof(OUT_VEC_T) <= __CPROVER_OBJECT_SIZE(arr.m_ptr), "the element of c1 lies inside the field's own storage");
+  _Bool same = 1;
+  for (unsigned j = 0; j < DIMS_IN; j++) same = same && in_c1.m_data[j] == in_c2.m_data[j];
+  if (same)
+    __CPROVER_assert(p1 == p2, "same coordinate, same element");
+  else
+    __CPROVER_assert((char *)p1 + sizeof(OUT_VEC_T) <= (char *)p2 || (char *)p2 + sizeof(OUT_VEC_T) <= (char *)p1, "different coordinates, disjoint elements");
+  VERIF_REACH();
+}
